@@ -14,7 +14,7 @@ if ! (cd $WT && go build ./... 2>/dev/null); then echo "$name DOES-NOT-BUILD"; e
 if (cd $WT && go test -vet=off -count=1 ./openflow13/ ./protocol/ ./common/ ./util/ ./ofbase/ 2>&1) | grep -q "^FAIL\|^--- FAIL"; then echo "$name SUITE-FAILS"; exit 0; fi
 bad=0
 for p in $props; do
-  out=$(cd /verif && VERIF_ROOT=/verif OFV_EVIDENCE_DIR=/tmp/benign/ev-$name OFV_NO_SEED_AUDIT=1 ./bin/ofverify check $p --repo $WT 2>&1); rc=$?
+  out=$(cd /verif && VERIF_ROOT=/verif OFV_EVIDENCE_DIR=/tmp/benign/ev-$name OFV_NO_SEED_AUDIT=1 ${OFV_BIN:-./bin/ofverify} check $p --repo $WT 2>&1); rc=$?
   if [ $rc -ne 0 ]; then bad=1; echo "$name $p FALSE-ALARM rc=$rc: $(echo "$out" | grep -E "^(VIOLATION|UNDECIDED|UNMAPPED) $p|rror" | head -2 | cut -c1-300 | tr '\n' '|')"; fi
 done
 [ $bad -eq 0 ] && echo "$name quiet on: $props"
